@@ -554,15 +554,24 @@ func c07stack(c *an.Ctx) {
 				}
 			}
 		}
-		// deflate and snappy are mutually exclusive
-		excl := false
-		fatal := c.P.Func("internal/protocol", "NewFatalClientErr")
-		for _, fc := range an.CallsTo(cmd, fatal) {
-			if s, ok := an.ConstString(fc.Common().Args[2]); ok && len(s) > 0 {
-				if code, _ := an.ConstString(fc.Common().Args[1]); code == "E_IDENTIFY_FAILED" {
-					for _, f := range an.FactsAt(fc.Block()) {
-						if _, isPhi := f.V.(*ssa.Phi); isPhi && f.True {
-							excl = true
+		// deflate and snappy are mutually exclusive: after one of the two upgrades the other is unreachable (the start state
+		// inherits what the dominating branches decided, so `if deflate && snappy { refuse }` followed by `if snappy {…}`
+		// `if deflate {…}` is recognised whatever the flags are stored in)
+		excl := true
+		{
+			sn := c.P.Func("nsqd", "(*clientV2).UpgradeSnappy")
+			df := c.P.Func("nsqd", "(*clientV2).UpgradeDeflate")
+			if sn == nil || df == nil {
+				excl = false
+			} else {
+				for _, pair := range [][2]*ssa.Function{{sn, df}, {df, sn}} {
+					calls := an.CallsTo(cmd, pair[0])
+					if len(calls) == 0 {
+						excl = false
+					}
+					for _, ci := range calls {
+						if callReachableAfter(cmd, ci.(ssa.Instruction), pair[1]) {
+							excl = false
 						}
 					}
 				}
@@ -880,4 +889,40 @@ func evalInt(v ssa.Value, env map[ssa.Value]int64) (int64, bool) {
 		}
 	}
 	return 0, false
+}
+
+// callReachableAfter: is there a path from the entry on which first is executed and a call of second follows? first sits
+// behind a gate (`if snappy { UpgradeSnappy }`); the path is followed from the entry, so that what an earlier compound test
+// (`if deflate && snappy { refuse }`) decided about the gate is known, and the sink asks whether the gate was open.
+func callReachableAfter(fn *ssa.Function, first ssa.Instruction, second *ssa.Function) bool {
+	// the gate: the nearest dominating branch whose true side holds first
+	var gate ssa.Value
+	for b := first.Block(); b != nil && gate == nil; b = b.Idom() {
+		id := b.Idom()
+		if id == nil {
+			break
+		}
+		if ifi, ok := id.Instrs[len(id.Instrs)-1].(*ssa.If); ok && len(id.Succs) == 2 && id.Succs[0] == b && id.Succs[1] != b {
+			gate = an.CanonBool(ifi.Cond)
+		}
+	}
+	if gate == nil {
+		q := &an.PathQ{Fn: fn, StartAfter: []ssa.Instruction{first}, FullOnly: true, AllAlias: true,
+			Sink: func(in ssa.Instruction, _ *an.PathState) bool { return isCallToOn(in, second, nil) }}
+		_, found := q.Find()
+		return found
+	}
+	q := &an.PathQ{Fn: fn, StartEntry: true, FullOnly: true, AllAlias: true, AllConsts: true, Marked: []ssa.Value{gate},
+		Sink: func(in ssa.Instruction, st *an.PathState) bool {
+			if !isCallToOn(in, second, nil) {
+				return false
+			}
+			k, known := st.ConstOf(gate)
+			if !known {
+				return true // the gate's state is not known here: assume it may have been open
+			}
+			return k.Value != nil && k.Value.String() == "true"
+		}}
+	_, found := q.Find()
+	return found
 }
